@@ -80,8 +80,16 @@ def gen_world(args, scratch):
             out['cmpdiff'] = sorted(f for f in set(ch) | set(out['hashes']) if ch.get(f) != out['hashes'].get(f))
     if res['violation'] is None and res['diverged'] is None and args.get('oracle', True):
         stats = {}
+        nround = None
         try:
-            probs = libsound.check_library(d, compl, random.Random(int(args.get('oracle_seed', 1))), stats=stats)
+            import re as _re
+            m_ = _re.findall(r'Round (\d+) of (\d+)', open(scratch + '/rank0.out').read())
+            if m_:
+                nround = int(m_[-1][1])
+        except Exception:
+            pass
+        try:
+            probs = libsound.check_library(d, compl, random.Random(int(args.get('oracle_seed', 1))), stats=stats, nround=nround)
         except FileNotFoundError as e:
             probs = [('missing-file', os.path.basename(str(e.filename)))]
         out['probs'] = [list(map(str, p)) for p in probs if p[0] != 'inconclusive'][:10]
